@@ -573,8 +573,11 @@ impl Parser {
             }
             Some(Lexem::Operator(s)) => {
                 let right = self.parse_add_sub()?;
-                let op = Op::from_with_not(s, not);
-                Ok(Some(Expr::op(left.unwrap(), op.unwrap(), right.unwrap())))
+                match (left, Op::from_with_not(s.clone(), not), right) {
+                    (Some(left), Some(op), Some(right)) => Ok(Some(Expr::op(left, op, right))),
+                    (_, None, _) => Err(format!("Unknown operator {}", s)),
+                    _ => Err(String::from("Error parsing condition, operand expected")),
+                }
             }
             _ => {
                 self.drop_lexem();
